@@ -327,6 +327,74 @@ def shared_evaluator_sessions(ctx, lt1, lt2, src):
         shutil.rmtree(d, ignore_errors=True)
 
 
+class _FailingEv:
+    """the real evaluator behind a switch: while `fail` is set, evaluate() dies the way an interrupted computation does"""
+
+    def __init__(self, real):
+        self._real, self.fail = real, False
+
+    @property
+    def segmentation_class_groups_names(self):
+        return self._real.segmentation_class_groups_names
+
+    @property
+    def resulting_metric_keys(self):
+        return self._real.resulting_metric_keys
+
+    def evaluate(self, *a, **k):
+        if self.fail:
+            raise RuntimeError("evaluation interrupted")
+        return self._real.evaluate(*a, **k)
+
+
+def two_handles_history(ctx, names, n_b, src):
+    """two aggregator handles on ONE output file in one interpreter: handle A claims names[0] and its evaluation dies; a second
+    handle B is created on the same file (which rebuilds the claims from the rows) and finishes the next n_b subjects; then
+    everything is resubmitted to A and to B. One row per subject, equal to an uninterrupted run — whatever A remembers."""
+    inp = {"mode": "two-handles", "names": names, "n_b": n_b, "src": src}
+    d = workdir("c17two")
+    try:
+        err = None
+        with quiet():
+            ev = _FailingEv(mk_evaluator())
+            out = os.path.join(d, "run.tsv")
+            try:
+                a = PA.Panoptica_Aggregator(ev, out)
+                ev.fail = True
+                try:
+                    a.evaluate(*subject_arrays(1), names[0])
+                except RuntimeError:
+                    pass
+                ev.fail = False
+                b = PA.Panoptica_Aggregator(ev, out)
+                for k, n in enumerate(names[1:1 + n_b]):
+                    b.evaluate(*subject_arrays(k + 2), n)
+                for h in (a, b, a):
+                    for k, n in enumerate(names):
+                        h.evaluate(*subject_arrays(k + 1), n)
+            except Exception as e:
+                err = f"{type(e).__name__}: {str(e)[:200]}"
+        ctx.case(inp, True, sample=inp)
+        ctx.count("two_handles_histories")
+        if err:
+            ctx.violation(f"C17 violated: resubmitting the subjects to two aggregator handles on one output file raised {err}", inp, key={"kind": "two-handles"})
+            return
+        with builtins.open(out, newline="") as f:
+            rows = list(csv.reader(f, delimiter="\t"))
+        got = sorted(r[0] for r in rows[1:])
+        if got != sorted(names):
+            ctx.violation(f"C17 violated: after an interrupted evaluation, a second handle on the same file and a complete resubmission the file holds rows {got}, "
+                          f"expected one each for {sorted(names)}", inp, impl=got, key={"kind": "two-handles"})
+            return
+        for r in rows[1:]:
+            k = names.index(r[0]) + 1
+            if r != reference_row(r[0], k):
+                ctx.violation(f"C17 violated: the row of {r[0]!r} differs from the row of an uninterrupted run", inp, impl=r[:6], key={"kind": "two-handles"})
+                return
+    finally:
+        shutil.rmtree(d, ignore_errors=True)
+
+
 def locale_resume(ctx, src):
     """resume in a process whose locale encoding is not UTF-8, with non-ASCII subject names already in the file"""
     from props.c16 import locale_sessions
@@ -398,6 +466,8 @@ def run(ctx):
     for lt1 in (False, True):
         for lt2 in (False, True):
             shared_evaluator_sessions(ctx, lt1, lt2, f"shared.{lt1}.{lt2}")
+    for names, n_b in ((["sub-01", "sub-02"], 1), (["sub-01", "sub-02", "sub-03"], 1), (["sub-01", "sub-02", "sub-03"], 2), (["a", "bb", "c"], 1), (["s1", "s2", "s 3", "s-4"], 2)):
+        two_handles_history(ctx, names, n_b, "two-handles")
 
 
 def search(ctx):
@@ -413,6 +483,9 @@ def replay(ctx, rec):
         shared_evaluator_sessions(ctx, rec["input"]["log_times"][0], rec["input"]["log_times"][1], "replay")
         return
     i = rec["input"]
+    if i.get("mode") == "two-handles":
+        two_handles_history(ctx, i["names"], i["n_b"], "replay")
+        return
     if i.get("mode") == "suffixless":
         suffixless_sessions(ctx, "replay")
         return
